@@ -55,6 +55,7 @@ type pairInfo struct {
 	a, b      string
 	readEntry string
 	writer    string
+	reader    string
 	count     int
 	entries   map[string]int
 	workloads map[string]int
@@ -192,10 +193,10 @@ func parent(r *vf.Run) {
 			}
 			a, b := rep.InnerPair()
 			ea, eb := rep.EntryPair()
-			k := a + " | " + b + " | " + rep.ReadEntry() + " | " + rep.Writer()
+			k := a + " | " + b + " | " + rep.ReadEntry() + " | " + rep.Reader() + " | " + rep.Writer()
 			pi := pairs[k]
 			if pi == nil {
-				pi = &pairInfo{a: a, b: b, readEntry: rep.ReadEntry(), writer: rep.Writer(), entries: map[string]int{}, workloads: map[string]int{}, first: rep, job: j}
+				pi = &pairInfo{a: a, b: b, readEntry: rep.ReadEntry(), reader: rep.Reader(), writer: rep.Writer(), entries: map[string]int{}, workloads: map[string]int{}, first: rep, job: j}
 				pairs[k] = pi
 			}
 			pi.count++
@@ -237,10 +238,10 @@ func parent(r *vf.Run) {
 			ws = append(ws, w)
 		}
 		sort.Strings(ws)
-		listed = append(listed, map[string]any{"a": pi.a, "b": pi.b, "read_entry": pi.readEntry, "writer": pi.writer, "reports": pi.count, "entry_point_pairs": es, "workloads": ws,
+		listed = append(listed, map[string]any{"a": pi.a, "b": pi.b, "read_entry": pi.readEntry, "reader": pi.reader, "writer": pi.writer, "reports": pi.count, "entry_point_pairs": es, "workloads": ws,
 			"first": []string{pi.first.A.Header, first(pi.first.A.Frames), first(pi.first.A.Lines), pi.first.B.Header, first(pi.first.B.Frames), first(pi.first.B.Lines)}})
 		for i := 0; i < pi.count; i++ {
-			r.Violate(vf.Violation{Clause: "data-race", Features: vf.F("a", pi.a, "b", pi.b, "read_entry", pi.readEntry, "writer", pi.writer), Case: pi.job,
+			r.Violate(vf.Violation{Clause: "data-race", Features: vf.F("a", pi.a, "b", pi.b, "read_entry", pi.readEntry, "reader", pi.reader, "writer", pi.writer), Case: pi.job,
 				Detail: fmt.Sprintf("race detector: %s / %s\nentry points: %s\nworkloads: %s\n%s", pi.a, pi.b, strings.Join(es, "; "), strings.Join(ws, ", "), pi.first.Text)})
 		}
 	}
